@@ -387,7 +387,7 @@ def main():
         rc = 1
 
     wall = time.time() - t_start
-    fault_counts = {k: v for k, v in counters.items() if k.startswith("fault.")}
+    fault_counts = {k: v for k, v in counters.items() if k.startswith("fault.") or k.startswith("relay.")}
     probe_counts = {k[6:]: v for k, v in counters.items() if k.startswith("probe.")}
     ev = {
         "property_id": pid, "tier": tier, "seed": seed0, "level": "exploration",
